@@ -1,6 +1,6 @@
 """C07 - a linear model's adjoint is the transpose of its forward map.
 
-Spec: specs/ModelGeom.tla (parts "C07" and "TP").  TLC checks Adjoint / Columns / Transpose on the intended design for
+Spec: specs/ModelGeom.tla (parts "C07", "TP", "SEQ", "SEQ2").  TLC checks Adjoint / Columns / Transpose on the intended design for
 every (model kind, domain geometry, range geometry) of the bounded instance, the named deviations must violate them, and
 the exact expected numbers are replayed into real cuqi.model.LinearModel objects and the shipped linear test problems.
 """
@@ -16,7 +16,10 @@ META = {
              "Part SEQ: a state machine over ONE model object (GetMatrix, T, T.get_matrix, T.T, assignment of domain_geometry / "
              "range_geometry) - every behaviour of length 3 (thorough: a seeded sample of length 4) is replayed into one real object; "
              "after every action forward / adjoint and the value the action returns must be the specification's numbers for the "
-             "CURRENT geometries; T's own matrix must reproduce T's forward; 3 more deviations must violate."),
+             "CURRENT geometries; T's own matrix must reproduce T's forward; 3 more deviations must violate. "
+             "Part SEQ2: the same machine over TWO objects - the action Copy derives a second object from the model (model(distribution) "
+             "and copy.copy(model)), every later action goes to either object in any order; after every action BOTH real objects must "
+             "show the specification's values for THEIR OWN current geometries (deviation CopySharesAssembledMatrix must violate)."),
     "note": ("Bounded sizes (function dimensions 4 and 6, images 2x2/2x3, test problems dim 4-8). KLExpansion is realised numerically "
              "(maps read off the original geometry object). Refusals (fun2par not implemented) are observations. Legacy "
              "Deconvolution1D has no documented operator: only the identities are checked."),
@@ -280,6 +283,8 @@ def seq_lin_needed(pool, beh, pred):
         for f in ("tp", "mp"):
             if st[f]:
                 pairs.add(tuple(st[f]))
+        for p in st.get("pairs", ()):       # SEQ2: the pair of every object after the action
+            pairs.add(tuple(p))
     return sorted(pairs)
 
 
@@ -292,9 +297,9 @@ class _SeqWorld:
         self.shape = {}
 
     def geom(self, side, i):
-        from cuqiverif.modelgeom_real import build_geometry, rmat
-        from cuqiverif.tlc import MachineryError
         if (side, i) not in self.geoms:
+            from cuqiverif.modelgeom_real import build_geometry, rmat
+            from cuqiverif.tlc import MachineryError
             g = self.pool[side][i - 1]
             # numeric par2fun / fun2par matrices of this geometry: emitted by TLC with every configuration that has it
             c = next((c for c in self.lin.values() if _gid(c["dg" if side == "D" else "rg"]) == _gid(g)), None)
@@ -310,8 +315,8 @@ class _SeqWorld:
         return self.geoms[(side, i)]
 
     def exp(self, d, r):
-        from cuqiverif.tlc import MachineryError
         if (d, r) not in self.exps:
+            from cuqiverif.tlc import MachineryError
             dg, rg = self.pool["D"][d - 1], self.pool["R"][r - 1]
             c = self.lin.get((self.mk, _gid(dg), _gid(rg), self.fi))
             if c is None:
@@ -340,33 +345,28 @@ class _SeqWorld:
         return cuqi.model.LinearModel(fwd, adj, range_geometry=rng.obj, domain_geometry=dom.obj)
 
 
-def check_seq_case(ctx, case):
-    """Replay one behaviour of the SEQ state machine into one real LinearModel; after EVERY action the object's forward /
-    adjoint (and what the action itself returns) must be the specification's values for the CURRENT geometries.
+class _SeqChecks:
+    """The comparisons of one behaviour of the SEQ / SEQ2 state machines (one real object or an object and its copy)."""
 
-    case: kind=seq, beh (mk, fi, d0, r0, steps, variant), pred (the steps as the `asbuilt` deviations predict them, or None),
-          pool {D, R}, lin [LinEval configurations of the pairs involved]"""
-    from cuqiverif.modelgeom_real import close, gkey
-    beh, pred = case["beh"], case.get("pred")
-    mk = beh["mk"]
-    lin = {(c["mk"], _gid(c["dg"]), _gid(c["rg"]), c["fi"]): c for c in case["lin"]}
-    W = _SeqWorld(case["pool"], lin, mk, beh["fi"], beh.get("variant"))
-    bkey = seq_key(beh) + ("/kl" if beh.get("variant") else "")
-    ctx.case("seq/" + bkey, facet="seq")
-    with warnings.catch_warnings():
-        warnings.simplefilter("ignore")
-        m = W.model(beh["d0"], beh["r0"])
-    t = None
+    def __init__(self, ctx, case, W, mk, prefix="seq"):
+        self.ctx, self.case, self.W, self.mk, self.prefix = ctx, case, W, mk, prefix
+        self.done = "construction"      # the actions executed so far (reported with a mismatch)
+        self.who = None                 # SEQ2: which object is looked at ("orig" / "copy")
+        self.others = ()                # SEQ2: current pairs of the other object(s)
 
-    def gk(d, r):
-        return "mk=%s/dom=%s/rng=%s" % (mk, gkey(W.geom("D", d).g), gkey(W.geom("R", r).g))
+    def gk(self, d, r):
+        from cuqiverif.modelgeom_real import gkey
+        return "mk=%s/dom=%s/rng=%s" % (self.mk, gkey(self.W.geom("D", d).g), gkey(self.W.geom("R", r).g))
 
-    def bad(obs, d, r, cls, what, expected, observed):
-        ctx.mismatch("seq/%s/%s/%s" % (obs, gk(d, r), cls), case, what + " [after %s]" % done, expected, observed)
+    def bad(self, obs, d, r, cls, what, expected, observed):
+        sig = "%s/%s/%s%s/%s" % (self.prefix, obs, "obj=%s/" % self.who if self.who else "", self.gk(d, r), cls)
+        self.ctx.mismatch(sig, self.case, ("%s: " % self.who if self.who else "") + what + " [after %s]" % self.done, expected, observed)
 
-    def fwd_adj(obj, name, e, d, r, transposed=False):
+    def fwd_adj(self, obj, name, e, d, r, transposed=False):
         """forward / adjoint of `obj` on the lattice vector and on every basis vector against the pair's numbers.
         transposed: obj is a transposed model (its forward is the adjoint of the pair and vice versa)."""
+        from cuqiverif.modelgeom_real import close
+        bad = self.bad
         M = e["matrix"]
         pr, pd = M.shape
         f_name, a_name = ("adjoint", "forward") if transposed else ("forward", "adjoint")
@@ -390,7 +390,9 @@ def check_seq_case(ctx, case):
                 + (" (it is the composition fun2par . F* . par2fun)" if coded else ""), M.T, Ad)
         return Ad
 
-    def matrix_of(obj, name, e, d, r, mp, transposed=False, inh=False, Tf=None):
+    def matrix_of(self, obj, name, e, d, r, mp, transposed=False, inh=False, Tf=None):
+        from cuqiverif.modelgeom_real import close
+        bad, W, mk = self.bad, self.W, self.mk
         M = e["matrix"].T if transposed else e["matrix"]
         call = {"get_": "", "T_": "T.", "TT_": "T.T."}[name]
         Gm, err = _try(lambda: _dense(obj.get_matrix()))
@@ -410,27 +412,52 @@ def check_seq_case(ctx, case):
             if cls == "other" and name == "TT_" and inh and mk == "func" and close(Gm, e["coded_adj_matrix"].T):
                 # t.T of a function-backed t is handed the matrix t assembled from its own forward map (= the coded adjoint)
                 cls = "inherited"
+            if cls == "other":
+                # what the deviation CopySharesAssembledMatrix predicts: the matrix of the pair the OTHER object has now
+                for p in self.others:
+                    Mo = W.exp(*p)["matrix"]
+                    if tuple(p) != (d, r) and close(Gm, Mo.T if transposed else Mo):
+                        cls = "of_other_object"
             bad(name + "matrix", d, r, cls, "%sget_matrix() is not the matrix of the specification for the current geometries"
                 % call + {"stale_cache": " (it is the matrix assembled for the geometries the model had before)",
                           "via_fun2par": " (its columns are fun2par . F* . par2fun e_j)",
                           "inherited": " (it is the transposed matrix of T, whose forward is fun2par . F* . par2fun)",
+                          "of_other_object": " (it is the matrix for the geometries of the OTHER object: the model and its copy "
+                                             "share the assembled matrix)",
                           "other": ""}[cls], M, Gm)
         if transposed and Tf is not None and cls != "stale_cache" and not close(Gm, Tf):
             # the transposed model is a linear model: its matrix reproduces ITS forward column by column
             inherited = bool(inh) and mk == "func" and close(Gm, M) and close(Tf, e["coded_adj_matrix"])
-            if True:
-                bad("T_columns", d, r, "inherited" if inherited else "other",
-                    "T.get_matrix() does not reproduce T.forward column by column"
-                    + (" (matrix handed over by the function-backed model, T.forward = fun2par . F* . par2fun)" if inherited else ""),
-                    Tf, Gm)
+            bad("T_columns", d, r, "inherited" if inherited else "other",
+                "T.get_matrix() does not reproduce T.forward column by column"
+                + (" (matrix handed over by the function-backed model, T.forward = fun2par . F* . par2fun)" if inherited else ""),
+                Tf, Gm)
+
+
+def check_seq_case(ctx, case):
+    """Replay one behaviour of the SEQ state machine into one real LinearModel; after EVERY action the object's forward /
+    adjoint (and what the action itself returns) must be the specification's values for the CURRENT geometries.
+
+    case: kind=seq, beh (mk, fi, d0, r0, steps, variant), pred (the steps as the `asbuilt` deviations predict them, or None),
+          pool {D, R}, lin [LinEval configurations of the pairs involved]"""
+    beh, pred = case["beh"], case.get("pred")
+    mk = beh["mk"]
+    lin = {(c["mk"], _gid(c["dg"]), _gid(c["rg"]), c["fi"]): c for c in case["lin"]}
+    W = _SeqWorld(case["pool"], lin, mk, beh["fi"], beh.get("variant"))
+    bkey = seq_key(beh) + ("/kl" if beh.get("variant") else "")
+    ctx.case("seq/" + bkey, facet="seq")
+    with warnings.catch_warnings():
+        warnings.simplefilter("ignore")
+        m = W.model(beh["d0"], beh["r0"])
+    t = None
+    K = _SeqChecks(ctx, case, W, mk)
+    gk, bad, fwd_adj, matrix_of = K.gk, K.bad, K.fwd_adj, K.matrix_of
 
     d, r = beh["d0"], beh["r0"]
-    done = "construction"
-    t_fwd = None
     for i, st in enumerate(beh["steps"]):
         a = st["a"]
         pst = pred[i] if pred else st
-        done_next = (done + " . " if i else "") + a + (str(st["g"]) if st["g"] else "")
+        done_next = (K.done + " . " if i else "") + a + (str(st["g"]) if st["g"] else "")
         with warnings.catch_warnings():
             warnings.simplefilter("ignore")
             if a in ("SD", "SR"):
@@ -455,11 +482,11 @@ def check_seq_case(ctx, case):
                 W.shape["dom" if side == "D" else "rng"] = new.fun_shape
                 t = None
                 d, r = st["d"], st["r"]
-                done = done_next
+                K.done = done_next
                 e = W.exp(d, r)
             else:
                 e = W.exp(d, r)
-                done = done_next
+                K.done = done_next
                 if a == "G":
                     matrix_of(m, "get_", e, d, r, pst["mp"])
                 elif a == "T":
@@ -468,7 +495,7 @@ def check_seq_case(ctx, case):
                     except Exception as ex:  # noqa: BLE001
                         bad("T", d, r, "raised", ".T raised", None, repr(ex))
                         return
-                    t_fwd = fwd_adj(t, "T_", e, d, r, transposed=True)
+                    fwd_adj(t, "T_", e, d, r, transposed=True)
                 elif a == "TG":
                     Tf = _columns(t.forward, e["matrix"].shape[0])
                     matrix_of(t, "T_", e, d, r, pst["mp"], transposed=True, inh=pst["inh"],
@@ -487,6 +514,131 @@ def check_seq_case(ctx, case):
             # after EVERY action: forward and adjoint of the model itself, for the geometries it has now
             fwd_adj(m, "", e, d, r)
             ctx.facets["seq_action_" + a] = ctx.facets.get("seq_action_" + a, 0) + 1
+
+
+# ----------------------------------------------------------------------------------------------------------------------
+# the same operations on TWO objects: a model and its shallow copy (ModelGeom.tla, part SEQ2)
+# ----------------------------------------------------------------------------------------------------------------------
+SEQ2_DEVIATIONS = [("CopySharesAssembledMatrix", "Seq2MatrixCurrent")]
+WHO = {1: "orig", 2: "copy"}
+
+
+def seq2_key(beh):
+    return "%s/f%d/%d.%d/" % (beh["mk"], beh["fi"], beh["d0"], beh["r0"]) + ".".join(
+        ("C" + beh["ck"]) if st["a"] == "C" else "%s%d%s" % (st["a"], st["o"], st["g"] if st["g"] else "") for st in beh["steps"])
+
+
+def check_seq2_case(ctx, case):
+    """Replay one behaviour of the SEQ2 state machine: ONE real LinearModel, at the action Copy a second object derived from it
+    (model(distribution) / copy.copy(model)), every other action on the object the step names.  After EVERY action BOTH objects
+    must show the specification's forward / adjoint for THEIR OWN current pair of geometries (field `pairs` of the step), and
+    what the action returns must be the value for the pair of the object it was applied to.
+
+    case: kind=seq2, beh (mk, fi, d0, r0, ck, steps, variant, copy_as = the realisation of Copy where the specification leaves it
+          open), pool {D, R}, lin [LinEval configurations of the pairs involved]"""
+    import copy as _copy
+    import cuqi
+    from cuqiverif.tlc import MachineryError
+    beh = case["beh"]
+    mk = beh["mk"]
+    lin = {(c["mk"], _gid(c["dg"]), _gid(c["rg"]), c["fi"]): c for c in case["lin"]}
+    W = _SeqWorld(case["pool"], lin, mk, beh["fi"], beh.get("variant"))
+    copy_as = beh["ck"] if beh["ck"] != "any" else beh.get("copy_as", "call")
+    ctx.case("seq2/" + seq2_key(beh) + "/" + copy_as + ("/kl" if beh.get("variant") else ""), facet="seq2")
+    with warnings.catch_warnings():
+        warnings.simplefilter("ignore")
+        objs = {1: W.model(beh["d0"], beh["r0"])}
+    held = {1: None, 2: None}                    # the transposed model the user holds of each object
+    pairs = {1: (beh["d0"], beh["r0"])}          # the pair of geometries each object has now (from the specification)
+    K = _SeqChecks(ctx, case, W, mk, prefix="seq2")
+
+    def look_at(o):
+        """The comparisons that follow concern object o: the user's function pair sees function values of ITS geometries."""
+        K.who = WHO[o]
+        K.others = tuple(p for q, p in sorted(pairs.items()) if q != o)
+        W.shape["dom"], W.shape["rng"] = W.geom("D", pairs[o][0]).fun_shape, W.geom("R", pairs[o][1]).fun_shape
+        return W.exp(*pairs[o])
+
+    for i, st in enumerate(beh["steps"]):
+        a, o = st["a"], st["o"]
+        K.done = (K.done + " . " if i else "") + (("copy=" + copy_as) if a == "C" else "%s(%s)%s" % (a, WHO[o], st["g"] if st["g"] else ""))
+        with warnings.catch_warnings():
+            warnings.simplefilter("ignore")
+            if a == "C":
+                e = look_at(1)
+                try:
+                    if copy_as == "call":
+                        # what a user writes to put the model into a distribution: Gaussian(model(x), ...) with x a named
+                        # distribution of the model's parameter dimension (dimension: the specification's, for this pair)
+                        x = cuqi.distribution.Gaussian(np.zeros(e["matrix"].shape[1]), 1.0, name="z")
+                        objs[2] = objs[1](x)
+                    elif copy_as == "copy":
+                        objs[2] = _copy.copy(objs[1])
+                    else:
+                        raise MachineryError("unknown realisation %r of the action Copy" % copy_as)
+                except MachineryError:
+                    raise
+                except Exception as ex:  # noqa: BLE001
+                    K.who = "copy"
+                    K.bad("copy_" + copy_as, pairs[1][0], pairs[1][1], "raised", "deriving a second object from the model raised",
+                          None, repr(ex))
+                    return
+                if objs[2] is objs[1]:
+                    raise MachineryError("the action Copy did not produce a second object")
+            elif a in ("SD", "SR"):
+                side = a[1]
+                new = W.geom(side, st["g"])
+                look_at(o)
+                try:
+                    if side == "D":
+                        objs[o].domain_geometry = new.obj
+                    else:
+                        objs[o].range_geometry = new.obj
+                except Exception as ex:  # noqa: BLE001 - a refused assignment is acceptable: the behaviour ends here
+                    ctx.observations.setdefault("seq_assignment_refused", {})[K.gk(*pairs[o])] = repr(ex)[:120]
+                    return
+                held[o] = None
+            elif a in ("G", "T", "TG", "TT"):
+                d, r = pairs[o]
+                e = look_at(o)
+                if a in ("TG", "TT") and held[o] is None:
+                    raise MachineryError("SEQ2 behaviour uses the transposed model of an object that holds none")
+                if a == "G":
+                    if len(pairs) == 2 and pairs[1] != pairs[2]:
+                        ctx.facets["seq2_get_matrix_while_the_objects_have_different_geometries"] = \
+                            ctx.facets.get("seq2_get_matrix_while_the_objects_have_different_geometries", 0) + 1
+                    K.matrix_of(objs[o], "get_", e, d, r, st["mp"])
+                elif a == "T":
+                    try:
+                        held[o] = objs[o].T
+                    except Exception as ex:  # noqa: BLE001
+                        K.bad("T", d, r, "raised", ".T raised", None, repr(ex))
+                        return
+                    K.fwd_adj(held[o], "T_", e, d, r, transposed=True)
+                elif a == "TG":
+                    Tf = _columns(held[o].forward, e["matrix"].shape[0])
+                    K.matrix_of(held[o], "T_", e, d, r, st["mp"], transposed=True, inh=st["inh"],
+                                Tf=None if isinstance(Tf, Exception) else Tf)
+                else:
+                    try:
+                        tt = held[o].T
+                    except Exception as ex:  # noqa: BLE001
+                        K.bad("TT", d, r, "raised", ".T.T raised", None, repr(ex))
+                        return
+                    K.fwd_adj(tt, "TT_", e, d, r)
+                    K.matrix_of(tt, "TT_", e, d, r, st["mp"], inh=st["inh"])
+            else:
+                raise MachineryError("unknown action %r in a SEQ2 behaviour" % a)
+            # the pair every object has now: the specification's
+            pairs = {q + 1: tuple(p) for q, p in enumerate(st["pairs"])}
+            if set(pairs) != set(objs) or pairs[o] != (st["d"], st["r"]):
+                raise MachineryError("SEQ2 step %r: the logged pairs do not fit the objects of the replay" % (st,))
+            # after EVERY action: forward and adjoint of BOTH objects, each for the geometries IT has now
+            for q in sorted(objs):
+                e = look_at(q)
+                K.fwd_adj(objs[q], "", e, pairs[q][0], pairs[q][1])
+            ctx.facets["seq2_action_%s_%s" % (a, WHO[o])] = ctx.facets.get("seq2_action_%s_%s" % (a, WHO[o]), 0) + 1
+    ctx.facets["seq2_copy_" + copy_as] = ctx.facets.get("seq2_copy_" + copy_as, 0) + 1
 
 
 def run_seq(ctx, lin):
@@ -549,6 +701,70 @@ def run_seq(ctx, lin):
         raise MachineryError("SEQ replay has no assignment of a geometry that compares equal to the replaced one")
     ctx.observe("seq_behaviours", {"emitted": total, "replayed": len(behs), "depth": inits[0]["depth"]})
     ctx.sample({"case": {"kind": "seq", "key": seq_key(behs[len(behs) // 2]), "steps": behs[len(behs) // 2]["steps"]}})
+    return len(behs)
+
+
+def run_seq2(ctx, lin):
+    """TLC part SEQ2 (a model and its shallow copy) + replay.  `lin`: the LinEval configurations of part C07."""
+    import random
+    import zlib
+    from cuqiverif import tlc
+    from cuqiverif.core import MachineryError
+    for dev, inv in SEQ2_DEVIATIONS:
+        res = ctx.tlc("ModelGeom", cfg="ModelGeom.SEQ.%s.deviation.cfg" % dev, workers=1, expect_violation=True, timeout=600)
+        if res.violated != inv:
+            raise MachineryError("deviation %s did not violate %s on the SEQ2 model (violated=%r)" % (dev, inv, res.violated))
+        ctx.observations.setdefault("deviation_counterexamples", {})["SEQ2/" + dev] = inv
+        tlc.cleanup(res)
+    res = ctx.tlc("ModelGeom", cfg="ModelGeom.SEQ.copy.%s.cfg" % ctx.tier, workers=4, timeout=1500)
+    ctx.model_must_hold(res, "ModelGeom.SEQ2")
+    inits = [c for c in res.cases if c.get("kind") == "seq2init"]
+    behs = [c for c in res.cases if c.get("kind") == "seq2"]
+    tlc.cleanup(res)
+    if not inits or not behs:
+        raise MachineryError("no behaviours emitted by ModelGeom part SEQ2 (init=%d, seq2=%d)" % (len(inits), len(behs)))
+    pool = {"D": inits[0]["D"], "R": inits[0]["R"]}
+    behs.sort(key=seq2_key)
+    total = len(behs)
+    cap = 12000
+    if total > cap:       # thorough tier: a seeded sample
+        rnd = random.Random(ctx.seed + 1)
+        behs = sorted(rnd.sample(behs, cap), key=seq2_key)
+    lin_by = {}
+    for c in lin:
+        lin_by.setdefault((c["mk"], c["fi"]), {})[(_gid(c["dg"]), _gid(c["rg"]))] = c
+    for b in behs:
+        k = seq2_key(b)
+        need = seq_lin_needed(pool, b, None)
+        uses_exp = any(pool["D"][dd - 1]["kind"] == "linexp" or pool["R"][rr - 1]["kind"] == "linexp" for dd, rr in need)
+        b["variant"] = "kl" if uses_exp and (zlib.crc32(k.encode()) & 1) else None
+        # where the specification leaves the realisation of Copy open: model(distribution) / copy.copy(model), alternating
+        b["copy_as"] = b["ck"] if b["ck"] != "any" else ("call", "copy")[(zlib.crc32(k.encode()) >> 1) & 1]
+        table = lin_by.get((b["mk"], b["fi"]), {})
+        cases = []
+        for dd, rr in need:
+            c = table.get((_gid(pool["D"][dd - 1]), _gid(pool["R"][rr - 1])))
+            if c is None:
+                raise MachineryError("no LinEval configuration for pair (%d, %d) of behaviour %s" % (dd, rr, k))
+            cases.append(c)
+        check_seq2_case(ctx, {"kind": "seq2", "beh": b, "pool": pool, "lin": cases})
+    # vacuity guards: both realisations of Copy; every action kind on the original AND on the copy; matrices asked for
+    # while the two objects have different geometries
+    acts = sorted({st["a"] for b in behs for st in b["steps"]} - {"C"})
+    if not {"G", "T", "SD", "SR"} <= set(acts):
+        raise MachineryError("SEQ2 behaviours lack an action kind: %r" % acts)
+    for a, who in [(a, w) for a in acts for w in WHO.values()] + [("C", "copy")]:
+        # (a library that refuses an action ends the behaviour with a mismatch: reported as such, not as a machinery failure)
+        if not ctx.facets.get("seq2_action_%s_%s" % (a, who)) and not ctx.violations and not ctx.observations.get("seq_assignment_refused"):
+            raise MachineryError("SEQ2 replay never executed action %s on the %s" % (a, who))
+    for ck in ("call", "copy"):
+        if not ctx.facets.get("seq2_copy_" + ck) and not ctx.violations:
+            raise MachineryError("SEQ2 replay never completed a behaviour with the realisation %r of Copy" % ck)
+    if not ctx.facets.get("seq2_get_matrix_while_the_objects_have_different_geometries") and not ctx.violations:
+        raise MachineryError("SEQ2 replay never asked for a matrix while the object and its copy had different geometries")
+    ctx.observe("seq2_behaviours", {"emitted": total, "replayed": len(behs), "pre": inits[0]["pre"], "post": inits[0]["post"]})
+    mid = behs[len(behs) // 2]
+    ctx.sample({"case": {"kind": "seq2", "key": seq2_key(mid), "copy": mid["ck"], "steps": mid["steps"]}})
     return len(behs)
 
 
@@ -854,6 +1070,7 @@ def run(ctx):
     for c in lin:
         check_lin_case(ctx, c)
     nseq = run_seq(ctx, lin)
+    nseq += run_seq2(ctx, lin)
     for c in conv:
         (check_conv1 if c["kind"] == "conv1" else check_conv2)(ctx, c)
     named = named_problems(tier)
@@ -867,12 +1084,16 @@ def run(ctx):
     ctx.rule = ("one case per (model kind, domain geometry, range geometry, core operator) emitted by TLC from ModelGeom.tla with exact "
                 "Fwd x, Adj y, matrix; one per (1-D/2-D, PSF, boundary condition) with the integer convolution matrix; named-PSF / legacy / "
                 "Abel1D configurations enumerated by the harness; non-trivial = distinct configuration x check kind "
-                "(forward, adjoint, get_matrix, T, tp); one per behaviour of the SEQ state machine (sequence of operations on one object)")
+                "(forward, adjoint, get_matrix, T, tp); one per behaviour of the SEQ state machine (sequence of operations on one object) "
+                "and of the SEQ2 state machine (the same operations on a model and its shallow copy)")
     ctx.exhaustive = True
     ctx.traces = len(lin) + len(conv) + len(named) + nseq
     ctx.assumptions += ["function dimensions 4 and 6; test problems of dimension 4-8",
                         "sequences: start configurations and geometry pools of ModelGeom.tla part SEQ (default, step, mapped, "
                         "expansion; Image2D F in the thorough tier); a refused geometry assignment ends the behaviour (observation)",
+                        "two objects: the copy is model(Gaussian(zeros(p), 1, name='z')) or copy.copy(model); geometries are only "
+                        "ASSIGNED through the public attributes (nothing is asserted about mutating a shared geometry object in place); "
+                        "quick tier: 4 start configurations, get_matrix before the copy or not, 3 actions after it",
                         "KLExpansion realised numerically: its par2fun/fun2par matrices are read off the original geometry object",
                         "named PSFs: documented operator taken from cuqi.testproblem._testproblem._getConvolutionOperator (scipy convolve1d)",
                         "floating comparison rtol=atol=1e-10 (1e-9 for FFT-based 2-D convolution)"]
@@ -886,6 +1107,8 @@ def replay(ctx, case):
         return check_lin_case(ctx, case)
     if kind == "seq":
         return check_seq_case(ctx, case)
+    if kind == "seq2":
+        return check_seq2_case(ctx, case)
     if kind == "conv1":
         return check_conv1(ctx, case)
     if kind == "conv2":
